@@ -262,6 +262,72 @@ example : ∑ j ∈ range exCoo.size, entry 2 exCoo.size false exB j 2 * entry 2
 example : entry 2 exCoo.size false exB 2 0 = entry 2 exCoo.size false (rawModes exSqrt 2 exCoo #[] false) 2 0 :=
   rbm_translation_cols exSqrt 2 exCoo #[] false 3 exB [5 / 2] ex_run 2 0 (by decide) (by decide)
 
+theorem sum_component (ndim : Nat) (hd : ndim = 2 ∨ ndim = 3) (k : Nat) (hk : k < ndim) (c : K) (m : Nat) :
+    ∑ j ∈ range (ndim * m), (if k = j % ndim then c else 0) = (m : K) * c := by
+  induction m with
+  | zero => simp
+  | succ m ih =>
+    rcases hd with rfl | rfl
+    · rw [show 2 * (m + 1) = 2 * m + 1 + 1 from by ring, Finset.sum_range_succ, Finset.sum_range_succ, ih]
+      have h0 : (2 * m) % 2 = 0 := by omega
+      have h1 : (2 * m + 1) % 2 = 1 := by omega
+      rw [h0, h1]
+      push_cast
+      have : k = 0 ∨ k = 1 := by omega
+      rcases this with rfl | rfl <;> simp <;> ring
+    · rw [show 3 * (m + 1) = 3 * m + 1 + 1 + 1 from by ring, Finset.sum_range_succ, Finset.sum_range_succ,
+        Finset.sum_range_succ, ih]
+      have h0 : (3 * m) % 3 = 0 := by omega
+      have h1 : (3 * m + 1) % 3 = 1 := by omega
+      have h2 : (3 * m + 1 + 1) % 3 = 2 := by omega
+      rw [h0, h1, h2]
+      push_cast
+      have : k = 0 ∨ k = 1 ∨ k = 2 := by omega
+      rcases this with rfl | rfl | rfl <;> simp <;> ring
+
+/-- **The translation columns are not unit vectors** (`rbm_translation_norm`): on a fresh vector, with `sqrt` exact at
+`n = coo.size()` and `n ≠ 0` in `K`, every translation column of the result has squared norm `1/ndim` — `n` counts
+unknowns (`ndim` per node) while a translation column has one entry `1/sqrt(n)` per node. -/
+theorem rbm_translation_norm (sqrt : K → K) (ndim : Nat) (coo : Array K) (tr : Bool) (nm : Nat) (B : Array K)
+    (ss : List K) (h : rigidBodyModesFull sqrt ndim coo #[] tr = .ok (nm, B, ss))
+    (hn : sqrt (coo.size : K) * sqrt (coo.size : K) = (coo.size : K)) (hn0 : (coo.size : K) ≠ 0)
+    (k : Nat) (hk : k < ndim) :
+    ∑ j ∈ range coo.size, entry ndim coo.size tr B j k * entry ndim coo.size tr B j k = 1 / (ndim : K) := by
+  obtain ⟨hd, hdiv, _, _⟩ := rbm_ok sqrt ndim coo #[] tr nm B ss h
+  have e : ∀ j ∈ range coo.size, entry ndim coo.size tr B j k * entry ndim coo.size tr B j k
+      = if k = j % ndim then (1 / sqrt (coo.size : K)) * (1 / sqrt (coo.size : K)) else 0 := by
+    intro j hj
+    have hj' := Finset.mem_range.mp hj
+    rw [rbm_translation_cols sqrt ndim coo #[] tr nm B ss h j k hj' hk]
+    rcases hd with rfl | rfl
+    · rw [rbm_span_2d sqrt coo tr j k hj' (by omega)]
+      unfold mode2
+      rw [if_neg (by omega)]
+      split <;> simp
+    · rw [rbm_span_3d sqrt coo tr j k hj' (by omega)]
+      unfold mode3
+      rw [if_pos hk]
+      split <;> simp
+  rw [Finset.sum_congr rfl e]
+  obtain ⟨m, hm⟩ : ∃ m, coo.size = ndim * m := ⟨coo.size / ndim, by
+    have := Nat.div_add_mod coo.size ndim; rw [hdiv] at this; omega⟩
+  have hs0 : sqrt (coo.size : K) ≠ 0 := by
+    intro h0; rw [h0, mul_zero] at hn; exact hn0 hn.symm
+  rw [hm] at hn hn0 hs0 ⊢
+  rw [sum_component ndim hd k hk _ m]
+  have hc : ((ndim * m : Nat) : K) = (ndim : K) * (m : K) := by push_cast; ring
+  rw [hc] at hn hn0 hs0
+  have hnd : (ndim : K) ≠ 0 := fun h0 => hn0 (by rw [h0, zero_mul])
+  have hm0 : (m : K) ≠ 0 := fun h0 => hn0 (by rw [h0, mul_zero])
+  rw [hc]
+  have : (1 / sqrt ((ndim : K) * (m : K))) * (1 / sqrt ((ndim : K) * (m : K))) = 1 / ((ndim : K) * (m : K)) := by
+    rw [div_mul_div_comm, one_mul, hn]
+  rw [this]
+  field_simp
+
+example : ∑ j ∈ range exCoo.size, entry 2 exCoo.size false exB j 1 * entry 2 exCoo.size false exB j 1 = 1 / ((2 : Nat) : Rat) :=
+  rbm_translation_norm exSqrt 2 exCoo false 3 exB [5 / 2] ex_run (by decide +kernel) (by decide +kernel) 1 (by decide)
+
 /-- **The output is not orthonormal** (`rbm_not_orthonormal`): on two nodes `(0,0)`, `(3,1)`, with a square root that is
 exact on every argument it receives (`sqrt 4 = 2`, `sqrt (25/4) = 5/2`), the returned translation columns have squared
 norm `1/2` and the rotation column is not orthogonal to them (`⟨B_0,B_2⟩ = −1/10`, `⟨B_1,B_2⟩ = 3/10`); only the
